@@ -379,6 +379,10 @@ def r8_own_attributes(cx):
         if isinstance(x, ast.Call) and isinstance(x.func, ast.Attribute) and x.func.attr in ("add", "append", "extend", "update", "insert") and isinstance(x.func.value, ast.Subscript) \
                 and U(x.func.value.value) in ("self.observers", "TYPE_OBSERVERS"):
             obs_stores.append(x)
+    for a_ in [x for x in ast.walk(m.tree) if isinstance(x, ast.Assign) and isinstance(x.targets[0], ast.Subscript) and U(x.targets[0].value) in ("self.observers", "TYPE_OBSERVERS")]:
+        v_ = a_.value
+        setish = (isinstance(v_, ast.Call) and call_name(v_) in ("set", "frozenset")) or isinstance(v_, (ast.Set, ast.SetComp)) or (isinstance(v_, ast.BinOp) and isinstance(v_.op, (ast.BitOr, ast.BitAnd, ast.Sub)))
+        cx.require(setish, a_, "an entry of the observer tables is a set (registering twice is idempotent)", construct=short(a_, 80))
     if not obs_stores:
         cx.unknown(m.tree.body[0], "cannot find where observers are registered (self.observers[...] / TYPE_OBSERVERS[...])")
     for x in obs_stores:
